@@ -2,7 +2,7 @@
    reader accepts, every field the writer packs is in range and every length-prefixed block fits its length field.
    Invariant carried through all readers:  written <= 4 * consumed  (padding added by the writer where the reader
    was lenient is paid for by the bytes the element consumed). *)
-From PsdV Require Import Base.Prelude Psd.Codec Psd.Model Psd.Proofs Psd.Corr Psd.Resave Psd.ResaveProofs.
+From PsdV Require Import Base.Prelude Psd.Codec Psd.Model Psd.Proofs Psd.Resave Psd.ResaveProofs.
 From Coq Require Import ZArith List Bool Lia ZifyBool.
 Import ListNotations.
 Open Scope Z_scope.
